@@ -5,6 +5,7 @@ import (
 	"fmt"
 	"sort"
 	"strings"
+	"time"
 
 	"verif/engine/core"
 	"verif/engine/explore"
@@ -140,7 +141,9 @@ func runC03(ctx *core.Ctx, pool *par.Pool) {
 	nTrans := 0
 	var flushPaths []SeqPathParams
 	flushSig := map[string]bool{}
-	for _, run := range plan(cfgs, []seed{seedTwo, seedWAL, seedFrag}, depth, seedDepth) {
+	runs := plan(cfgs, []seed{seedTwo, seedWAL, seedFrag}, depth, seedDepth)
+	for _, run := range runs {
+		ctx.Share(ctx.Budget() * 6 / 10 / time.Duration(len(runs)))
 		cfg := run.Cfg
 		st := xstate.BFS(ctx, pool, xstate.Spec{Cfg: cfg, Seed: run.Seed.Ops, Alphabet: c03Alphabet(cfg, ctx.Quick()), MaxDepth: run.Depth,
 			OnTransition: func(from *xstate.Node, s *xstate.Succ, isNew bool, _ *xstate.Node) {
@@ -176,6 +179,7 @@ func runC03(ctx *core.Ctx, pool *par.Pool) {
 		total.Transitions += st.Transitions
 		ctx.Set("depth_"+run.name(), st.Depth)
 	}
+	ctx.Unshare()
 	// instrumentation conformance: same histories on the plain build (real sync, free-running writer, Go's map order)
 	if pp := plainPool(ctx); pp != nil {
 		validated := 0
